@@ -26,7 +26,8 @@ def budget(tier):
 @st.composite
 def _case(draw):
     prof = S.profile(max_methods=5, max_services=2, p_http=0.2, p_sig=0.1, p_routing=0.05, p_paged=0.08, p_lro=0.03, p_stream=0.05,
-                     p_dep_io=0.05, p_comment=0.02, max_messages=3, max_fields=3, max_files=2, p_resource=0.05)
+                     p_dep_io=0.05, p_comment=0.02, max_messages=3, max_fields=3, max_files=3, p_resource=0.05,
+                     services_in_subpackages=True, p_subpackage=0.4)
     api = draw(S.apis(prof))
     opts = {"params": ["autogen-snippets=False"], "snippets": False, "transport": "grpc"}
     opts["retry_config"] = draw(S.retry_configs(api))
